@@ -318,6 +318,30 @@ def symbolic_tree(res, prog):
     return tree, it
 
 
+def _has_float_literal(pr):
+    if isinstance(pr, list):
+        if len(pr) == 3 and pr[0] == "n" and "float" in str(pr[1]):
+            return True
+        return any(_has_float_literal(c) for c in pr)
+    return False
+
+
+def _exact_shadow_differs(prog, env, v):
+    """a truth value / integer computed through floats (a comparison, a floor of inexact
+    operands): with the float literals taken as exact rationals the plain program itself
+    gives another answer, so the plain answer was decided by rounding noise"""
+    try:
+        ve = Interp(False, env, exact=True).run(prog)
+    except RecursionError:
+        raise
+    except Exception:
+        return True
+    try:
+        return bool(ve != v)
+    except Exception:
+        return False
+
+
 def _has_complex_literal(pr):
     if isinstance(pr, list):
         if len(pr) == 3 and pr[0] == "n" and "complex" in str(pr[1]):
@@ -391,7 +415,10 @@ def compare_envs(res, prog, tree, env_specs, exact_mode=False):
                      f"plain value {describe(v)}, tree {tree!r} raises "
                      f"{sorted(n for n, _ in ref[1])} at {small}")
             break
-        if not agree(ref[1], v) and isinstance(v, float) and _ill_conditioned(prog, env, v):
+        if not agree(ref[1], v) and (
+                (isinstance(v, float) and _ill_conditioned(prog, env, v))
+                or (isinstance(v, (bool, int)) and _has_float_literal(prog)
+                    and _exact_shadow_differs(prog, env, v))):
             # the plain float computation is itself far from the exact value of the
             # program (cancellation followed by a division ...): nothing to compare with
             res.label("ill-conditioned-float-environment")
